@@ -53,4 +53,59 @@ reg(
     thorough={"shards": 16, "timeout_s": 4 * 3600, "n_programs": 120, "n1": 2500,
               "required_classes": ["C01.prog_with_scan", "C01.prog_with_vmap", "C01.prog_with_cond", "C01.law_exact-pmf", "C01.law_pit"]},
 )
+
+reg(
+    "C02",
+    "A case is (program from the model-IR grammar, arguments, constraint map over a subset S of the leaf addresses with "
+    "values from the independent reference sampler). Subset classes: none (None and {}), all, partial at top level, "
+    "partial inside a Vmap/Scan/Cond/@gen sub-call, a whole sub-call missing. Non-trivial: S is a proper non-empty subset "
+    "and the program has a combinator or a data dependency. Distinct = hash of (program, args, S).",
+    quick={"shards": 16, "timeout_s": 1500, "n_cases": 7, "n1": 400,
+           "required_classes": ["C02.subset_none", "C02.subset_all", "C02.subset_partial_inside_subcall",
+                                "C02.subset_whole_subcall_missing", "C02.prog_with_scan", "C02.prog_with_vmap", "C02.prog_with_cond"]},
+    thorough={"shards": 16, "timeout_s": 4 * 3600, "n_cases": 100, "n1": 2500,
+              "required_classes": ["C02.subset_none", "C02.subset_all", "C02.subset_partial_inside_subcall", "C02.subset_whole_subcall_missing"]},
+)
+
+reg(
+    "C03",
+    "A case is (program, old args, old trace obtained by generate with a random constraint subset, new args = old args plus a "
+    "generated perturbation, update-constraint subset with new values drawn from the reference conditional priors). The "
+    "classifier detects whether the change flips a Cond predicate (class counter 'flip'). Non-trivial: constraints non-empty "
+    "or args changed, and the program has a combinator or a data dependency. Distinct = hash of the whole case.",
+    quick={"shards": 16, "timeout_s": 1500, "n_cases": 14,
+           "required_classes": ["C03.flip", "C03.noflip", "C03.args_changed", "C03.args_same", "C03.constraints_some",
+                                "C03.constraints_none", "C03.prog_with_scan", "C03.prog_with_vmap", "C03.prog_with_cond"]},
+    thorough={"shards": 16, "timeout_s": 4 * 3600, "n_cases": 250,
+              "required_classes": ["C03.flip", "C03.noflip", "C03.args_changed", "C03.constraints_some"]},
+)
+
+reg(
+    "C04",
+    "A case is (program, trace from generate with a random constraint subset, selection expression built from the program's "
+    "own address paths - strings, tuples, dicts, all, none, closed under | ^ ~ -, new args: unchanged or perturbed). "
+    "Moves that flip a Cond are detected by the reference and only the clauses that the statement keeps for them are "
+    "asserted. Non-trivial: the selection selects a proper non-empty subset of the leaves, or the program has a Scan/Vmap "
+    "sub-call. Distinct = hash of the whole case.",
+    quick={"shards": 16, "timeout_s": 1500, "n_cases": 8, "n1": 400,
+           "required_classes": ["C04.sel_none", "C04.sel_all", "C04.sel_proper", "C04.prog_with_scan", "C04.prog_with_vmap",
+                                "C04.prog_with_cond", "C04.selection_reaches_into_subcall", "C04.sel_with_connective", "C04.args_changed"]},
+    thorough={"shards": 16, "timeout_s": 4 * 3600, "n_cases": 120, "n1": 2500,
+              "required_classes": ["C04.sel_none", "C04.sel_all", "C04.sel_proper", "C04.prog_with_scan", "C04.prog_with_vmap"]},
+)
+
+reg(
+    "C05",
+    "A case is a generated history: program + constrained initial generate (constrained addresses = 'observed'), then a list "
+    "of operations drawn from {update(new args, constraint subset), regenerate(selection), mh(selection), mala, hmc, jit "
+    "round trip, vectorize(n regenerations)->index lane, vectorize->resample_vectorized_trace(categorical|systematic)->index "
+    "lane}; the invariant (reference-model coherence, observed values, telescoping of consecutive updates) is checked after "
+    "every step. Non-trivial: >= 3 executed steps of >= 2 different kinds including a kernel or regenerate. Distinct = hash "
+    "of the whole history.",
+    quick={"shards": 16, "timeout_s": 1500, "n_histories": 3, "max_ops": 6,
+           "required_classes": ["C05.step_update", "C05.step_regenerate", "C05.step_mh", "C05.step_mala", "C05.step_hmc",
+                                "C05.step_jit", "C05.step_vector", "C05.pair_update>update"]},
+    thorough={"shards": 16, "timeout_s": 4 * 3600, "n_histories": 30, "max_ops": 14,
+              "required_classes": ["C05.step_update", "C05.step_regenerate", "C05.step_mh", "C05.step_mala", "C05.step_hmc", "C05.step_jit", "C05.step_vector"]},
+)
 NOT_CLAIMED = {}
